@@ -201,8 +201,19 @@ def run(chk, binary):
     jobs = [j for j, _ in keep]
     meta = [m for _, m in keep]
     res = cli_map(binary, jobs)
+    # 8 s is a proxy for "does not terminate": what ran out of it is run again, alone, with two minutes. Slow is not hung
+    # (the unoptimised build is quadratic in the line length for some commands), so only what still does not end counts.
+    slow = [i for i, r in enumerate(res) if r[0] == "timeout"]
+    slow_done = 0
+    if slow:
+        os.makedirs(cwd, exist_ok=True)
+        again = cli_map(binary, [dict(jobs[i], timeout=120) for i in slow[:12]], nworkers=4)
+        for i, r in zip(slow[:12], again):
+            if r[0] != "timeout":
+                res[i] = r
+                slow_done += 1
     shutil.rmtree(cwd, ignore_errors=True)
-    dist = {"skipped_exponential_work": skipped, "flags": 0, "vic": 0, "rc0": 0, "rc1": 0, "panic": 0, "timeout": 0, "signal": 0, "bad_utf8": 0}
+    dist = {"slow_but_terminated": slow_done, "skipped_exponential_work": skipped, "flags": 0, "vic": 0, "rc0": 0, "rc1": 0, "panic": 0, "timeout": 0, "signal": 0, "bad_utf8": 0}
     sites = {}
     crlf_examples = []
     known = {k["site"]: k for k in KNOWN_SITES}
@@ -213,7 +224,7 @@ def run(chk, binary):
         e = err.decode("utf-8", errors="replace")
         if rc == "timeout":
             dist["timeout"] += 1
-            chk.violation("spec:did not terminate within 8 s", case)
+            chk.violation("spec:did not terminate (8 s, then 120 s alone)", case)
             continue
         if rc == 0:
             dist["rc0"] += 1
